@@ -221,6 +221,8 @@ pub fn bytes(g: &mut Gen) -> Outcome {
                     vg.spine(d)
                 } else if vg.g.chance(1, 12) {
                     vg.big()
+                } else if vg.g.chance(1, 4) {
+                    vg.custom_rich()
                 } else {
                     let d = 1 + vg.g.index(6);
                     vg.value(d)
